@@ -24,6 +24,14 @@ type Profile struct {
 	hint        leafHint // what the tags of the struct field being filled say about its leaf values
 	geoLayouts  []int    // coordinate layouts of the WKB values of this row set (wkb.go), drawn once
 	geoInvalid  bool     // some values of the row set are not WKB
+	// TagNulls: list elements / map values whose tag (parquet-element / parquet-value) carries
+	// `optional` on a non-pointer Go type get their zero value (= the null of the entry) with the
+	// null probability and in null runs, like optional struct fields do; the leaf hints of the
+	// parquet-value tag apply to the values; one map in eight gets 9..70 entries (the null scan
+	// of the value writer runs over all entries but the first). Off: zero only by chance.
+	TagNulls bool
+	elemOpt  bool // the struct field being filled has parquet-element:",optional"
+	valOpt   bool // the struct field being filled has parquet-value:",optional"
 }
 
 // leafHint carries the tag-derived constraints of the leaf below the struct field being filled:
@@ -180,7 +188,7 @@ func Fill(r *rand.Rand, v reflect.Value, p *Profile, path string, isOptional boo
 			v.Set(reflect.Zero(t))
 			return
 		}
-		saved := p.hint
+		saved, savedElem, savedVal := p.hint, p.elemOpt, p.valOpt
 		for i := 0; i < t.NumField(); i++ {
 			tag := t.Field(i).Tag.Get("parquet")
 			opt := false
@@ -193,9 +201,17 @@ func Fill(r *rand.Rand, v reflect.Value, p *Profile, path string, isOptional boo
 			if et := t.Field(i).Tag.Get("parquet-element"); et != "" {
 				p.hint = hintOfTag(et, t.Field(i).Type)
 			}
+			p.elemOpt, p.valOpt = false, false
+			if p.TagNulls {
+				p.elemOpt = tagHasOption(t.Field(i).Tag.Get("parquet-element"), "optional")
+				p.valOpt = tagHasOption(t.Field(i).Tag.Get("parquet-value"), "optional")
+				if vt := t.Field(i).Tag.Get("parquet-value"); vt != "" && t.Field(i).Type.Kind() == reflect.Map {
+					p.hint = hintOfTag(vt, t.Field(i).Type.Elem())
+				}
+			}
 			Fill(r, v.Field(i), p, path+"."+t.Field(i).Name, opt)
 		}
-		p.hint = saved
+		p.hint, p.elemOpt, p.valOpt = saved, savedElem, savedVal
 	case reflect.Slice:
 		if v.Type().Elem().Kind() == reflect.Uint8 { // []byte
 			if isOptional && p.null(r, path) {
@@ -242,9 +258,12 @@ func Fill(r *rand.Rand, v reflect.Value, p *Profile, path string, isOptional boo
 			n = 1 + r.Intn(p.MaxLen)
 		}
 		s := reflect.MakeSlice(v.Type(), n, n)
+		elemOpt := p.elemOpt
+		p.elemOpt = false
 		for i := 0; i < n; i++ {
-			Fill(r, s.Index(i), p, path+"[]", false)
+			Fill(r, s.Index(i), p, path+"[]", elemOpt)
 		}
+		p.elemOpt = elemOpt
 		v.Set(s)
 	case reflect.Map:
 		k := r.Intn(5)
@@ -253,13 +272,24 @@ func Fill(r *rand.Rand, v reflect.Value, p *Profile, path string, isOptional boo
 			return
 		}
 		m := reflect.MakeMap(v.Type())
-		for i := 0; i < k-1; i++ {
+		valOpt := p.valOpt
+		p.valOpt = false
+		big := 0
+		if p.TagNulls && r.Intn(8) == 0 {
+			big = []int{9, 64, 65, 70}[r.Intn(4)]
+		}
+		for i := 0; i < k-1+big; i++ {
 			key := reflect.New(v.Type().Key()).Elem()
-			key.SetString([]string{"a", "b", "k1", "k2", "zz", ""}[r.Intn(6)])
+			if i < k-1 {
+				key.SetString([]string{"a", "b", "k1", "k2", "zz", ""}[r.Intn(6)])
+			} else {
+				key.SetString(fmt.Sprintf("e%03d", i))
+			}
 			val := reflect.New(v.Type().Elem()).Elem()
-			Fill(r, val, p, path+"{}", false)
+			Fill(r, val, p, path+"{}", valOpt)
 			m.SetMapIndex(key, val)
 		}
+		p.valOpt = valOpt
 		v.Set(m)
 	case reflect.Array:
 		if isOptional && p.null(r, path) {
@@ -459,6 +489,18 @@ func splitTag(tag string) []string {
 		}
 	}
 	return append(out, cur)
+}
+
+func tagHasOption(tag, opt string) bool {
+	if tag == "" {
+		return false
+	}
+	for _, o := range splitTag(tag)[1:] {
+		if o == opt {
+			return true
+		}
+	}
+	return false
 }
 
 // LongUsed: did the last row filled with this profile get its long list?
